@@ -616,6 +616,47 @@ class Exec:
             return False
         raise PathEnd()
 
+    def summarize_bool(self, thunk):
+        """state merging for a PURE computation that returns a bool (a character predicate applied to a symbolic character):
+        all its paths are enumerated in a nested exploration and folded into the single term OR_i (pc_i AND result_i), so that
+        the caller branches once on what the predicate says instead of once per comparison inside it.  Anything but a clean
+        boolean result on every sub-path (panic, unsupported, budget) falls back to the ordinary, forking execution."""
+        outer = (self.trace, self.pos, self.pending, self.log, self.call_depth, len(self.stack))
+        base = len(self.pc)
+        sub_pending = [[]]
+        terms = []
+        ok = True
+        try:
+            while sub_pending and ok:
+                self.trace = sub_pending.pop()
+                self.pos = 0
+                self.pending = sub_pending
+                self.log = []
+                self.solver.push()
+                try:
+                    try:
+                        r = thunk()
+                        if isinstance(r, bool):
+                            r = z3.BoolVal(r)
+                        if not z3.is_bool(r):
+                            ok = False
+                        else:
+                            terms.append(z3.And(*(self.pc[base:] + [r])))
+                    except PathEnd:
+                        pass
+                    except (Panic, Truncated, Unsupported, RecursionError):
+                        ok = False
+                finally:
+                    del self.pc[base:]
+                    self.solver.pop()
+                    self.call_depth = outer[4]
+                    del self.stack[outer[5]:]
+        finally:
+            self.trace, self.pos, self.pending, self.log = outer[:4]
+        if not ok:
+            return thunk()
+        return z3.simplify(z3.Or(*terms)) if terms else False
+
     def concretize(self, v, candidates, label='concretize'):
         """fork a symbolic scalar over the concrete candidates (all others: path withheld, counted)"""
         if isinstance(v, int):
